@@ -81,7 +81,9 @@ Record wfc (c : cst) : Prop := mkWfc {
   wf_fits : idx_fits (c_da c) HDR_LEN (c_blocks c);
   wf_idx_len : (length (ienc (c_blocks c)) + c_z c <= IDX_AREA)%nat;
   wf_pos : c_seek c = false -> c_dpos c = c_dcur c;
-  wf_split : c_first c <= c_split c
+  wf_split : c_first c <= c_split c;
+  (* the index area fills up exactly when a block is completed *)
+  wf_full : c_da c <= HDR_LEN + nlen (ienc (c_blocks c)) + 10 -> c_part c = []
 }.
 
 (** * abstraction *)
